@@ -223,6 +223,9 @@ func genC04(t *rapid.T) progCase {
 		}
 		return single(commentLines(t, txt), "diagram")
 	case 1:
+		if gen.Pick(t, "soup", 2, 1) == 1 {
+			return genSoup(t)
+		}
 		return genFileSet(t, false)
 	default:
 		// diagram with a board block placed before / between / after other content
